@@ -105,6 +105,9 @@ func ZZ_C03_aggregate() {
 	// ghost bookkeeping: which distinct members delivered a valid partial for (head+1, head.sig)
 	valid := make([]bool, n)
 	nvalid := 0
+	// ... and which members signed the round over ANOTHER previous signature (only a faulty member does)
+	forked := make([]bool, n)
+	nforked := 0
 	target := hr + 1
 	wantPrev := head.Signature
 	// each delivered packet is one of a small set of templates (symbolic choice):
@@ -140,6 +143,10 @@ func ZZ_C03_aggregate() {
 			prev = zz.Bytes(pfx+".prev", 2)
 			sig = sign(nw.ep, signer, r, prev)
 			counts = !chained || bytes.Equal(prev, wantPrev)
+			if !counts && !forked[signer] {
+				forked[signer] = true
+				nforked++
+			}
 		case tm == 2*n:
 			r = target + 1
 			sig = sign(nw.ep, 0, r, prev)
@@ -182,8 +189,11 @@ func ZZ_C03_aggregate() {
 	}
 	if nvalid < t {
 		zz.Assert("below_threshold_nothing_stored", len(base.puts) == 0)
-	} else {
-		// enabling obligation (C05d): t valid partials for head+1 => the beacon is stored and the run loop notified
+	} else if nforked < t {
+		// enabling obligation (C05d): t valid partials for head+1 => the beacon is stored and the run loop notified.
+		// Fault model: fewer than t members are faulty. (A THRESHOLD of members signing the round over another
+		// previous signature yields a recovered signature that cannot be appended, and the aggregator has flushed
+		// the round's partials -- the valid ones included -- before it tries; that takes t faulty members.)
 		zz.Assert("threshold_reached_beacon_stored", len(base.puts) >= 1 && base.puts[0].Round == target)
 		zz.Assert("run_loop_notified", len(cs.catchupBeacons) == 1)
 	}
